@@ -33,7 +33,7 @@ type cellAccess struct {
 }
 type formatCase struct{ Case, HasFn, Cmd string }
 type mapRange struct{ File, Func, Operand, Fingerprint string }
-type uncheckedOp struct{ File, Func, Kind, Expr string }
+type uncheckedOp struct{ File, Func, Kind, Expr, Guard string }
 
 type srcFacts struct {
 	CellAccesses []cellAccess
@@ -254,7 +254,27 @@ func extractTyped(repo string, f *srcFacts) error {
 				src := nodeString(p.Fset, fd)
 				h := sha256.Sum256([]byte(src))
 				fp := hex.EncodeToString(h[:6])
+				var stack []ast.Node
+				guardOf := func(n ast.Node) string {
+					var gs []string
+					for i := len(stack) - 1; i >= 0; i-- {
+						is, ok := stack[i].(*ast.IfStmt)
+						if !ok {
+							continue
+						}
+						// only when n sits in the body of the if (not in its condition or else branch)
+						if n.Pos() >= is.Body.Pos() && n.End() <= is.Body.End() {
+							gs = append(gs, nodeString(p.Fset, is.Cond))
+						}
+					}
+					return strings.Join(gs, " && ")
+				}
 				ast.Inspect(fd.Body, func(n ast.Node) bool {
+					if n == nil {
+						stack = stack[:len(stack)-1]
+						return true
+					}
+					stack = append(stack, n)
 					switch x := n.(type) {
 					case *ast.RangeStmt:
 						if t := p.TypesInfo.TypeOf(x.X); t != nil {
@@ -272,7 +292,7 @@ func extractTyped(repo string, f *srcFacts) error {
 							return ok && tv.Value != nil && tv.Value.String() != "0"
 						}
 						if isConst(x.Low) || isConst(x.High) {
-							f.Unchecked = append(f.Unchecked, uncheckedOp{File: rel, Func: name, Kind: "slice", Expr: nodeString(p.Fset, x)})
+							f.Unchecked = append(f.Unchecked, uncheckedOp{File: rel, Func: name, Kind: "slice", Expr: nodeString(p.Fset, x), Guard: guardOf(x)})
 						}
 					case *ast.TypeAssertExpr:
 						if x.Type == nil {
@@ -294,12 +314,14 @@ func extractTyped(repo string, f *srcFacts) error {
 									}
 									return true
 								})
+								stack = stack[:len(stack)-1]
 								return false
 							}
 						}
 					case *ast.ValueSpec:
 						if len(x.Names) == 2 && len(x.Values) == 1 {
 							if _, ok := x.Values[0].(*ast.TypeAssertExpr); ok {
+								stack = stack[:len(stack)-1]
 								return false
 							}
 						}
@@ -361,7 +383,7 @@ func runExtract(args []string) error {
 		}
 		b.WriteString("]\n\ndef uncheckedOps : List UncheckedOp := [\n")
 		for i, u := range f.Unchecked {
-			fmt.Fprintf(&b, "  ⟨%s, %s, %s, %s⟩%s\n", leanStr(u.File), leanStr(u.Func), leanStr(u.Kind), leanStr(u.Expr), comma(i, len(f.Unchecked)))
+			fmt.Fprintf(&b, "  ⟨%s, %s, %s, %s, %s⟩%s\n", leanStr(u.File), leanStr(u.Func), leanStr(u.Kind), leanStr(u.Expr), leanStr(u.Guard), comma(i, len(f.Unchecked)))
 		}
 		b.WriteString("]\n\nend Gomacro.Facts\n")
 		// write only when changed, to keep lake's incremental build quiet
